@@ -35,6 +35,7 @@ func main() {
 	dump := flag.String("dump", "", "debug: dump calls and facts of pkg:Func")
 	explain := flag.String("explain", "", "replay: print the obligation stored in this violation file, re-derived")
 	list := flag.Bool("list", false, "list implemented properties")
+	dumpSt := flag.String("dump-ref", "", "structs|funcs: print the reference table of struct declarations / unexported functions (checker/ref_*.json)")
 	verbose := flag.Bool("v", false, "print every obligation")
 	flag.Parse()
 
@@ -49,6 +50,19 @@ func main() {
 	}
 
 	start := time.Now()
+	if *dumpSt != "" {
+		c, err := load(*repo, false)
+		if err != nil {
+			fmt.Println("LOAD FAILED:", err)
+			os.Exit(2)
+		}
+		if *dumpSt == "funcs" {
+			dumpFuncs(c)
+		} else {
+			dumpStructs(c)
+		}
+		return
+	}
 	if *dump != "" {
 		c, err := load(*repo, false)
 		if err != nil {
